@@ -293,6 +293,8 @@ GEN_UNITS = {  # property -> units of Gen/Source.v its source-level theorems are
     "C19": ["classification_encoding", "multilabel_encoding", "prediction_encoding"],
     "C04": ["ClipEvaluation__check_clips_match", "ClipEvaluation__check_matches", "AnnotationProject__annotations_are_part_of_the_project", "Clip__validate_times"],
     "C05": ["compute_geometric_features"],
+    "C08": ["iterate_over_valid_clips"],
+    "C09": ["iterate_over_valid_clips"],
 }
 
 
